@@ -2442,3 +2442,151 @@ func RFoldPair(c *core.Ctx) {
 		c.Anchor("loops over tryFindCaseEquivalences results")
 	}
 }
+
+// ---------------------------------------------------------------------------
+// R-LMSTART: the landmark-chain finder hands the matcher a candidate START.
+// It finds the first occurrence of the first landmark and walks left from it:
+// over the whitespace a landmark alternative may begin with, then over the
+// characters of the leading loop.  Whatever it hands over must not lie to the
+// right of a position where a match can start — the scan never comes back.
+// Two structural conditions follow:
+//   (1) where the occurrences of the alternatives are collected, the Start of
+//       the result is the smallest Start (a comparison between two Start
+//       values, as for End): `;` and `\s*;` match at the same core position
+//       with different starts;
+//   (2) the walk to the left uses the leading whitespace set of EVERY
+//       alternative of the first landmark (a loop over its Alternatives that
+//       reads LeadingWhitespaceSet): the occurrence found first (`\t`) may lie
+//       inside the whitespace run of the alternative the match uses (`\s+=`).
+// ---------------------------------------------------------------------------
+
+func RLmStart(c *core.Ctx) {
+	c.Rule("R-LMSTART", "the candidate start of the landmark-chain finder is never later than a possible match start: the occurrence collector keeps the smallest Start among the alternatives (a comparison between two Start values), and the function that stores the candidate rewinds over the leading whitespace set of every alternative of the first landmark (a loop over Alternatives reading LeadingWhitespaceSet, in it or in a helper it calls)", 2)
+	p := c.P
+	root := p.Pkg("regexp2")
+	info := root.TypesInfo
+	alts := p.LookupField("syntax", "RequiredLandmark", "Alternatives")
+	startF := p.LookupField("regexp2", "requiredLandmarkMatch", "Start")
+	endF := p.LookupField("regexp2", "requiredLandmarkMatch", "End")
+	wsF := p.LookupField("syntax", "RequiredLandmarkAlternative", "LeadingWhitespaceSet")
+	posF := p.LookupField("", "Runner", "Runtextpos")
+	if alts == nil || startF == nil || endF == nil || wsF == nil || posF == nil {
+		c.Anchor("RequiredLandmark.Alternatives / requiredLandmarkMatch.Start, End / RequiredLandmarkAlternative.LeadingWhitespaceSet / Runner.Runtextpos")
+		return
+	}
+	var collectors []*types.Func
+	n := 0
+	for _, fd := range p.FuncDecls(root) {
+		if fd.Body == nil || p.IsTestFile(fd.Pos()) {
+			continue
+		}
+		name := core.DeclName(root, fd)
+		collects := false
+		ast.Inspect(fd.Body, func(x ast.Node) bool {
+			rs, ok := x.(*ast.RangeStmt)
+			if !ok || core.FieldOf(info, rs.X) != alts {
+				return true
+			}
+			ast.Inspect(rs.Body, func(y ast.Node) bool {
+				if sel, ok := y.(*ast.SelectorExpr); ok && core.FieldOf(info, sel) == endF {
+					collects = true
+				}
+				return true
+			})
+			return true
+		})
+		if !collects {
+			continue
+		}
+		fn, _ := info.Defs[fd.Name].(*types.Func)
+		collectors = append(collectors, fn)
+		n++
+		c.Visit(name)
+		cmp := false
+		ast.Inspect(fd.Body, func(y ast.Node) bool {
+			be, ok := y.(*ast.BinaryExpr)
+			if !ok {
+				return true
+			}
+			switch be.Op {
+			case token.LSS, token.LEQ, token.GTR, token.GEQ:
+				if core.FieldOf(info, be.X) == startF && core.FieldOf(info, be.Y) == startF {
+					cmp = true
+				}
+			}
+			return true
+		})
+		c.Check(cmp, name+" / keeps the smallest Start among the alternatives", fd.Pos(), "the Start of the result is the one of the first alternative that matched: another alternative at the same position may begin further left (`\\s*;` next to `;`), and the candidate handed to the matcher is then to the right of the real match start")
+	}
+	if n == 0 {
+		c.Anchor("a function collecting occurrences of landmark alternatives")
+		return
+	}
+	// (2) the function(s) that turn an occurrence into the scan position
+	var readsAllWS func(fd *ast.FuncDecl, depth int) bool
+	readsAllWS = func(fd *ast.FuncDecl, depth int) bool {
+		found := false
+		ast.Inspect(fd.Body, func(x ast.Node) bool {
+			switch y := x.(type) {
+			case *ast.RangeStmt:
+				if core.FieldOf(info, y.X) == alts {
+					ast.Inspect(y.Body, func(z ast.Node) bool {
+						if sel, ok := z.(*ast.SelectorExpr); ok && core.FieldOf(info, sel) == wsF {
+							found = true
+						}
+						return true
+					})
+				}
+			case *ast.CallExpr:
+				if fn := core.Callee(info, y); fn != nil && fn.Pkg() == root.Types && depth < 2 {
+					isCollector := false
+					for _, cf := range collectors {
+						if cf == fn {
+							isCollector = true
+						}
+					}
+					if d, _ := p.DeclOf(fn); d != nil && d.Body != nil && d != fd && !isCollector && readsAllWS(d, depth+1) {
+						found = true
+					}
+				}
+			}
+			return true
+		})
+		return found
+	}
+	m := 0
+	for _, fd := range p.FuncDecls(root) {
+		if fd.Body == nil || p.IsTestFile(fd.Pos()) {
+			continue
+		}
+		callsCollector, storesPos := false, false
+		ast.Inspect(fd.Body, func(x ast.Node) bool {
+			switch y := x.(type) {
+			case *ast.CallExpr:
+				fn := core.Callee(info, y)
+				for _, cf := range collectors {
+					if fn == cf {
+						callsCollector = true
+					}
+				}
+			case *ast.AssignStmt:
+				for _, l := range y.Lhs {
+					if core.FieldOf(info, l) == posF {
+						storesPos = true
+					}
+				}
+			}
+			return true
+		})
+		if !callsCollector || !storesPos {
+			continue
+		}
+		m++
+		name := core.DeclName(root, fd)
+		c.Visit(name)
+		c.Check(readsAllWS(fd, 0), name+" / the rewind to the candidate start covers the leading whitespace of every alternative", fd.Pos(), "the candidate is derived from the first occurrence found, using only that occurrence's own alternative: an occurrence of one alternative inside the whitespace run that another alternative would absorb (`\\t` inside `\\s+=`) moves the candidate past the real match start")
+	}
+	if m == 0 {
+		c.Anchor("the function that stores a landmark-derived candidate into Runtextpos")
+	}
+}
